@@ -33,7 +33,7 @@ ASSUMPTIONS = [
 ]
 BUDGET = {
     "quick": {"shards": 16, "examples": 2, "wall": 110, "seeds": 4, "batch": 2},
-    "thorough": {"shards": 16, "examples": 100, "wall": 900, "seeds": 24, "batch": 6},
+    "thorough": {"shards": 16, "examples": 100, "wall": 900, "seeds": 24, "batch": 4},
 }
 
 
@@ -63,6 +63,12 @@ def batches(nbatch):
                 m["sensors"] = {ren.get(k, k): v for k, v in m["sensors"].items()}
                 m["sensor_noises"] = {ren.get(k, k): v for k, v in m["sensor_noises"].items()}
                 m["symbol_keyed"] = [ren.get(k, k) for k in m.get("symbol_keyed", [])]
+            multi = [k for k, rs in m["sensors"].items() if len(rs) >= 2]
+            if multi and draw(st.sampled_from([False] * 5 + [True])):
+                # readings AND noise of a multi-reading sensor keyed by Symbols: refused by the pinned tree (Symbols cannot be
+                # sorted); if a tree accepts it, its output must not depend on the declaration order either
+                m["symbol_keyed"] = sorted(set(m.get("symbol_keyed", [])) | {draw(st.sampled_from(sorted(multi)))})
+                m["maybe_refused"] = True
             specs.append({"model": m, "perm": draw(st.integers(0, 5))})
         return {"batch": specs}
 
@@ -115,30 +121,46 @@ def case(spec, ctx):
         if "error" in ref:
             ctx.fail("generation-error", ref["error"], one)
         raw_orders = set()
+        # a definition the pinned tree refuses (two or more Symbol-keyed readings) takes part as well: the property speaks of
+        # accepted definitions, whichever those are for the tree under test. Per generator (C++ filter, C++ model, Python) it
+        # must be refused by every child and variant alike, or accepted by all of them and then satisfy the same identities.
+        PARTS = {"ekf": ("ekf_header", "ekf_source"), "model": ("model_header", "model_source"), "py": ()}
+        accepted = {}
+        for part in PARTS:
+            verdicts = {(hs, var): part not in results[hs][f"{i}:{var}"].get("part_errors", {}) for hs in seeds for var in ("orig", "variant")}
+            if len(set(verdicts.values())) > 1:
+                ctx.fail(f"acceptance-differs:{part}", f"definition {i}: accepted by {sorted(k for k, v in verdicts.items() if v)}, refused by "
+                                                         f"{sorted(k for k, v in verdicts.items() if not v)}", one)
+            accepted[part] = all(verdicts.values())
+        if m.get("maybe_refused"):
+            ctx.event("maybe_refused_definition:" + ",".join(f"{p_}={'accepted' if a_ else 'refused'}" for p_, a_ in sorted(accepted.items())))
         for hs in seeds:
             for var in ("orig", "variant"):
                 r = results[hs][f"{i}:{var}"]
                 if "error" in r:
                     ctx.fail("generation-error", f"hashseed {hs} {var}: {r['error']}", one)
                 raw_orders.add(tuple(r["raw_state_order"]))
-                for k in ("ekf_header", "ekf_source", "model_header", "model_source"):
-                    if r[k] != ref[k]:
-                        what = "hash-seed" if var == "orig" else "declaration-order/container"
-                        ctx.fail(f"bytes-differ:{k}:{what}", f"definition {i}: {k} sha256 {r[k][:16]} (hashseed {hs}, {var}) != {ref[k][:16]} (hashseed {seeds[0]}, orig)", one)
-                if r["py_layout"] != ref["py_layout"]:
-                    ctx.fail("python-layout-differs", f"hashseed {hs} {var}: {r['py_layout']} vs {ref['py_layout']}", one)
-                if not (r["ekf_repeat_same"] and r["model_repeat_same"]):
-                    ctx.fail("second-generation-differs", f"hashseed {hs} {var}", one)
-                if not (r.get("ekf_config_unchanged", True) and r.get("model_config_unchanged", True)):
-                    ctx.fail("generation-modified-callers-config", f"hashseed {hs} {var}: the cpp.Config object passed in was changed by the generation", one)
+                for part, keys in PARTS.items():
+                    if not accepted[part]:
+                        continue
+                    for k in keys:
+                        if r[k] != ref[k]:
+                            what = "hash-seed" if var == "orig" else "declaration-order/container"
+                            ctx.fail(f"bytes-differ:{k}:{what}", f"definition {i}: {k} sha256 {r[k][:16]} (hashseed {hs}, {var}) != {ref[k][:16]} (hashseed {seeds[0]}, orig)", one)
+                    if part == "py" and r["py_layout"] != ref["py_layout"]:
+                        ctx.fail("python-layout-differs", f"hashseed {hs} {var}: {r['py_layout']} vs {ref['py_layout']}", one)
+                    if part != "py" and not r[f"{part}_repeat_same"]:
+                        ctx.fail("second-generation-differs", f"hashseed {hs} {var}", one)
+                    if part != "py" and not r.get(f"{part}_config_unchanged", True):
+                        ctx.fail("generation-modified-callers-config", f"hashseed {hs} {var}: the cpp.Config object passed in was changed by the generation", one)
                 ctx.count()
         ctx.event("definitions")
         if len(raw_orders) >= 2:
             ctx.event("raw_set_order_varied_across_children")
-        if len(m["state"]) >= 3 and len(m["sensors"]) >= 2 and len(raw_orders) >= 2:
+        if len(m["state"]) >= 3 and len(m["sensors"]) >= 2 and len(raw_orders) >= 2 and accepted["ekf"]:
             ctx.nontrivial(m)
             ctx.sample({"state": m["state"], "control": m["control"], "sensors": {k: sorted(v) for k, v in m["sensors"].items()},
-                        "raw_state_orders_seen": sorted(raw_orders)[:4], "hashseeds": seeds, "ekf_source_sha256": ref["ekf_source"][:16]})
+                        "raw_state_orders_seen": sorted(raw_orders)[:4], "hashseeds": seeds, "ekf_source_sha256": ref.get("ekf_source", "refused")[:16]})
 
 
 def shard(ctx):
